@@ -284,3 +284,25 @@ int __wrap_close(int fd)
 	if (sf_observer) sf_observer(SF_close, fd, 0, res);
 	return res;
 }
+
+/* Not a fault plan: TCP listeners on an ephemeral port.  Every case of the protocol harnesses binds a fresh listener and
+ * leaves one connection in TIME_WAIT; hundreds of thousands of cases per run exhaust the ~28k ephemeral ports and
+ * bind(port 0) starts failing with EADDRINUSE for up to a minute.  That is the sandbox's TCP stack, not the library:
+ * wait for a port instead of failing the run.  Binds to an explicit port are passed through untouched. */
+#include <netinet/in.h>
+#include <time.h>
+long sf_bind_waits;
+int __real_bind(int, const struct sockaddr *, socklen_t);
+int __wrap_bind(int fd, const struct sockaddr *sa, socklen_t len)
+{
+	int tries, r = __real_bind(fd, sa, len);
+	int any_port = sa && ((sa->sa_family == AF_INET && len >= (socklen_t)sizeof(struct sockaddr_in) && ((const struct sockaddr_in *)sa)->sin_port == 0) ||
+	    (sa->sa_family == AF_INET6 && len >= (socklen_t)sizeof(struct sockaddr_in6) && ((const struct sockaddr_in6 *)sa)->sin6_port == 0));
+	for (tries = 0; r < 0 && errno == EADDRINUSE && any_port && tries < 600; tries++) {
+		struct timespec ts = { 0, 250000000L };
+		nanosleep(&ts, NULL);
+		sf_bind_waits++;
+		r = __real_bind(fd, sa, len);
+	}
+	return r;
+}
